@@ -79,7 +79,7 @@ VS = ['v%d' % i for i in range(N)]
 
 def rng(tn, names):
     lo, hi = sim.RANGE[tn]
-    return 'all(%d <= x <= %d for x in (%s,))' % (lo, hi, ", ".join(names))
+    return " and ".join('%d <= %s <= %d' % (lo, n, hi) for n in names)
 
 
 QUICK_PAIRS = {('SINT', 'USINT'), ('INT', 'UINT'), ('DINT', 'UDINT'), ('LINT', 'ULINT'), ('USINT', 'SINT'), ('INT', 'SINT'),
@@ -148,7 +148,7 @@ for kind in ('read_tag', 'read_frag', 'write_tag', 'write_frag'):
             symbolic=['att: the (non-existent) attribute id'], outside='')
 def unknown_targets(v0: int, v1: int, v2: int, v3: int, which: int) -> bool:
     """
-    pre: all(-32768 <= x <= 32767 for x in (v0, v1, v2, v3)) and 0 <= which <= 5
+    pre: -32768 <= v0 <= 32767 and -32768 <= v1 <= 32767 and -32768 <= v2 <= 32767 and -32768 <= v3 <= 32767 and 0 <= which <= 5
     post: _
     """
     att = sim.attribute('TINT')
